@@ -322,7 +322,7 @@ theorem fileLines_wire_plain (F : Facts) (d : TableDef) (ls : List (List Nat)) (
 /-- the printer's `first_line` after a sequence of calls -/
 def firstAfter (o : Print.RealOracle) (fmt : Print.Format) : Bool → List PrintCall → Bool
   | first, [] => first
-  | first, c :: rest => firstAfter o fmt (Print.printResult o fmt first (toResultRow c.result) c.final).2 rest
+  | first, c :: rest => firstAfter o fmt (Print.printResult o fmt (c.final || first) (toResultRow c.result) c.final).2 rest
 
 theorem termItems_append (o : Print.RealOracle) (fmt : Print.Format) (first : Bool) (a b : List PrintCall) :
     termItems o fmt first (a ++ b) = termItems o fmt first a ++ termItems o fmt (firstAfter o fmt first a) b := by
@@ -336,31 +336,6 @@ theorem termItems_prefix (o : Print.RealOracle) (fmt : Print.Format) (first : Bo
   rw [termItems_append]
   exact List.prefix_append _ _
 
-/-- a format whose printer has no header state: text and JSON -/
-def headerless : Print.Format → Bool
-  | .csv _ => false
-  | _ => true
-
-theorem printRows_headerless (o : Print.RealOracle) (fmt : Print.Format) (h : headerless fmt = true) (columns : List Print.Bytes)
-    (first : Bool) (rows : List (List Value)) :
-    Print.printRows o fmt columns first rows = Print.printRows o fmt columns true rows := by
-  induction rows generalizing first with
-  | nil => rfl
-  | cons r rest ih =>
-    simp only [Print.printRows, Print.printRow]
-    have : ∀ f, Print.headerLines fmt columns f = [] := by
-      intro f
-      cases fmt with
-      | csv d => simp [headerless] at h
-      | text => rfl
-      | json => rfl
-    rw [this first, this true]
-
-theorem printResult_headerless (o : Print.RealOracle) (fmt : Print.Format) (h : headerless fmt = true) (first : Bool)
-    (r : Print.ResultRow) (single : Bool) :
-    (Print.printResult o fmt first r single).1 = (Print.printResult o fmt true r single).1 := by
-  simp only [Print.printResult, printRows_headerless o fmt h r.columns first r.rows]
-
 /-- calls none of which clears the screen (a non-aggregate statement) write exactly the lines of the batch printer -/
 theorem termItems_no_clear (o : Print.RealOracle) (fmt : Print.Format) (first : Bool) (calls : List PrintCall)
     (h : ∀ c ∈ calls, c.final = false) :
@@ -371,7 +346,7 @@ theorem termItems_no_clear (o : Print.RealOracle) (fmt : Print.Format) (first : 
   | cons c rest ih =>
     have hc : c.final = false := h c (by simp)
     simp only [termItems, printCalls, List.map_cons, Print.printAll, hc, Bool.false_eq_true, if_false, List.nil_append,
-      Bool.or_false, List.map_append, List.map_map]
+      Bool.or_false, Bool.false_or, List.map_append, List.map_map]
     rw [ih _ (fun x hx => h x (by simp [hx]))]
     simp only [printCalls, List.map_map, hc, Bool.or_false]
     rfl
